@@ -18,7 +18,7 @@ RULE = ("cases from rng(seed, 8, 0, i): relation = i mod 7 of " + ", ".join(RELS
         "distinct = fingerprint(spec, relation, K); non-trivial = the relation changed the representation (e.g. at least one quaternion negated / id changed) and the "
         "optimizer moved some vertex by > 1e-6.")
 REQ = ["eval:chi2-representation-invariant", "eval:result-representation-invariant"] + ["rel:" + r for r in RELS] + [
-    "class:info_cross_terms", "class:info_blockdiag", "class:negated_vertex_quat", "class:negated_measurement_quat", "class:negated_offset_quat", "class:run_to_convergence", "class:fix_first_pose=True", "class:fix_first_pose=False", "class:objects_reused_in_second_graph", "class:rerepresented_graph_through_file", "class:whole_turns_written_in_place", "class:graph_with_4000+_edges", "class:cloned_graph:deepcopy", "class:cloned_graph:pickle", "class:cloned_graph:deepcopy_of_parts"]
+    "class:info_cross_terms", "class:info_blockdiag", "class:negated_vertex_quat", "class:negated_measurement_quat", "class:negated_offset_quat", "class:run_to_convergence", "class:fix_first_pose=True", "class:fix_first_pose=False", "class:objects_reused_in_second_graph", "class:rerepresented_graph_through_file", "class:whole_turns_written_in_place", "class:graph_with_4000+_edges", "class:cloned_graph:deepcopy", "class:cloned_graph:pickle", "class:cloned_graph:deepcopy_of_parts", "class:permuted_listing_with_fix_first_pose", "class:two_live_graphs_share_objects:continued_on_old", "class:same_edge_object_listed_twice"]
 PLAN = {
     "quick": {"cases": 1400, "soft_s": 90, "min_nontrivial": 400, "require": REQ},
     "thorough": {"cases": 56000, "soft_s": 1500, "min_nontrivial": 12000, "require": REQ},
@@ -85,7 +85,9 @@ def apply_relation(rng, spec, rel, ctx):
             if rng.random() < 0.5:
                 h = gen.copy_spec(e)
                 h["info"] = (np.array(e["info"]) * 0.5).tolist()
-                new += [h, gen.copy_spec(h)]
+                h2 = gen.copy_spec(h)
+                h2["dup_of_prev"] = True
+                new += [h, h2]
                 changed = True
             else:
                 new.append(e)
@@ -102,8 +104,35 @@ def relation_check(ctx, rng, spec, rel, mode, cross, cond_max=1e8):
     """Apply one re-representation to spec and compare chi2 / K-iteration results.  Returns a tuple of observations or None."""
     ctx.count("class:info_cross_terms" if cross else "class:info_blockdiag")
     ctx.count("rel:" + rel)
+    ffp_listing = bool(rel == "permute_vertices" and rng.random() < 0.5)
+    if ffp_listing and not any(v.get("fixed") for v in spec["vertices"][1:]):
+        ffp_listing = False
+    if ffp_listing:
+        # two listings of one problem under the default fix_first_pose=True: in the first one the first listed vertex is fixed only through the
+        # default argument (another vertex carries a flag); in the second one it carries a flag itself and the list starts with some flagged vertex -
+        # the fixed *sets* coincide, only the order (and which vertex is "first") differs
+        spec = gen.copy_spec(spec)
+        spec["vertices"][0]["fixed"] = False
+        first_id = spec["vertices"][0]["id"]
     spec2, c, changed, extra_delta, mapping = apply_relation(rng, spec, rel, ctx)
+    if ffp_listing:
+        for v in spec2["vertices"]:
+            if v["id"] == first_id:
+                v["fixed"] = True
+        fx = [j for j, v in enumerate(spec2["vertices"]) if v.get("fixed")]
+        j = fx[int(rng.integers(len(fx)))]
+        spec2["vertices"][0], spec2["vertices"][j] = spec2["vertices"][j], spec2["vertices"][0]
+        changed = True
+        ctx.count("class:permuted_listing_with_fix_first_pose")
     g, g2 = M.build(spec), M.build(spec2)
+    if rel == "split_edge" and changed and rng.random() < 0.5:
+        # the two halves are one edge *object* listed twice (edges = [..., half, half, ...]) instead of two equal objects
+        es = list(g2._edges)
+        for j, se in enumerate(spec2["edges"]):
+            if se.get("dup_of_prev"):
+                es[j] = es[j - 1]
+        g2 = M.Graph(es, list(g2._vertices))
+        ctx.count("class:same_edge_object_listed_twice")
     if rel == "shift_2pi" and rng.random() < 0.5:
         # the whole turns are written into the stored arrays of otherwise identical objects (no constructor in between)
         g2 = M.build(spec)
@@ -145,7 +174,7 @@ def relation_check(ctx, rng, spec, rel, mode, cross, cond_max=1e8):
         raise Skip("cond(H) > %.0e" % cond_max)
     kw = {"max_iter": mode, "tol": 0.0} if mode else {"max_iter": 50, "tol": 1e-10}
     # default behaviour (fix_first_pose=True: the first *listed* vertex is the gauge) wherever the relation keeps the list order
-    ffp = bool(rel != "permute_vertices" and rng.random() < 0.5)
+    ffp = bool(ffp_listing or (rel != "permute_vertices" and rng.random() < 0.5))
     ctx.count("class:fix_first_pose=%s" % ffp)
     feats = dict(feats, fix_first_pose=ffp)
     if not mode:
@@ -165,6 +194,9 @@ def relation_check(ctx, rng, spec, rel, mode, cross, cond_max=1e8):
     if not mode and (not r1.converged or not r2.converged):
         raise Skip("run to convergence did not converge within 50 iterations")
     tol = 200 * R.EPS * cond * (1.0 + scene) * max(4.0 ** min(K, 6), 10.0 * amp)
+    # shift_2pi: a + 2 pi k is itself rounded (|error| <= extra_delta, up to 6e-12 for k = 1000): the two graphs differ by that input perturbation,
+    # carried to the result by the lever arms and the iteration map
+    tol += 16 * extra_delta * (1.0 + 2.0 * scene) * max(1.0, amp) * max(1.0, cond) ** 0.5
     if not mode:
         # two converged runs may stop one iteration apart: they agree to the convergence accuracy, not to rounding
         tol = max(tol, 1e-4)
@@ -198,7 +230,11 @@ def relation_check(ctx, rng, spec, rel, mode, cross, cond_max=1e8):
             pv, pe = rng.permutation(len(gb._vertices)), rng.permutation(len(gb._edges))
             g_re = M.Graph([gb._edges[int(j)] for j in pe], [gb._vertices[int(j)] for j in pv])
             M.quiet_optimize(ga, fix_first_pose=False, max_iter=2, tol=0.0)
-            M.quiet_optimize(g_re, fix_first_pose=False, max_iter=2, tol=0.0)
+            # two live graphs over the same vertex and edge objects: the run continues either on the new listing or on the *old* one (whose
+            # construction-time bookkeeping the new graph's construction may have overwritten on the shared objects)
+            on_old = bool(rng.random() < 0.5)
+            M.quiet_optimize(gb if on_old else g_re, fix_first_pose=False, max_iter=2, tol=0.0)
+            ctx.count("class:two_live_graphs_share_objects:continued_on_" + ("old" if on_old else "new"))
             by = {v.id: v for v in g_re._vertices}
             wr = 0.0
             for v in ga._vertices:
